@@ -1899,6 +1899,11 @@ impl Recipe {
         let cfg_lkm = kind == Kind::Lkm && rng.chance(1, 2);
         Recipe { g: "gadget".into(), state: rng.next() | 1, kind, gadgets, split: rng.chance(1, 3), extra: rng.below(3) as usize, cfg_lkm, shared: false }
     }
+    /// overlapping function bodies with reporting instructions in the shared blocks
+    pub fn random_shared(rng: &mut Rng) -> Recipe {
+        let kind = Recipe::random_kind(rng);
+        Recipe { g: "special".into(), state: rng.next() | 1, kind, gadgets: vec!["shared_null_deref".into()], split: false, extra: 0, cfg_lkm: false, shared: true }
+    }
     /// random multi-function program
     pub fn random_program(rng: &mut Rng) -> Recipe {
         let kind = Recipe::random_kind(rng);
@@ -1978,6 +1983,64 @@ pub fn gen_special(rng: &mut Rng, kind: Kind, name: &str) -> Input {
             f_ins.push(g.store("R14", 24, V::Reg("R15", 8)));
             let last = g.ret();
             funcs.push(FuncG { name: "f".into(), blocks: to_blocks(f_ins, last), shared: vec![], cconv: Some("MSABI"), no_blocks: false });
+        }
+        // several functions jump into a chain of blocks of one function and list these blocks as their own
+        // (overlapping function bodies); the shared blocks contain accesses that make checks report at
+        // their addresses, so that the original and the duplicated blocks produce same-address warnings
+        "shared_null_deref" => {
+            let nshared = 2 + g.rng.below(4) as usize;
+            let nusers = 1 + g.rng.below(3) as usize;
+            // function 0: owner
+            let mut blocks: Vec<BlockG> = Vec::new();
+            let mut b0 = g.prologue(0x20);
+            let mut j = g.term(Tm::Jmp(1));
+            j.len = 2;
+            b0.push(j);
+            blocks.push(BlockG { ins: b0, suffix: None });
+            for k in 0..nshared {
+                let mut ins = Vec::new();
+                match g.rng.below(3) {
+                    0 => {
+                        ins.push(g.mov_r32i("RCX", 0));
+                        ins.push(g.load("RDX", 8, "RCX", 0x10));
+                    }
+                    1 => {
+                        ins.push(g.mov_r32i("RDI", 0x20));
+                        ins.push(g.call_ext("malloc"));
+                        blocks.push(BlockG { ins, suffix: None });
+                        ins = vec![g.store("RAX", 0, V::Const(1, 8))];
+                    }
+                    _ => {
+                        let i = g.random_ins();
+                        ins.push(i);
+                        ins.push(g.mov_r32i("RAX", 0));
+                        ins.push(g.load("RDX", 4, "RAX", 8));
+                    }
+                }
+                if k + 1 == nshared {
+                    ins.extend(g.epilogue(0x20));
+                } else {
+                    let mut f = g.term(Tm::Fall);
+                    f.len = 0;
+                    ins.push(f);
+                }
+                blocks.push(BlockG { ins, suffix: None });
+            }
+            let nb = blocks.len();
+            funcs.push(FuncG { name: "main".into(), blocks, shared: vec![], cconv: Some("__stdcall"), no_blocks: false });
+            for u in 0..nusers {
+                let entry = 1 + g.rng.below(nb as u64 - 1) as usize;
+                let mut ins = g.prologue(0x20);
+                for _ in 0..g.rng.below(3) {
+                    let i = g.random_ins();
+                    ins.push(i);
+                }
+                let mut j = g.term(Tm::JmpForeign(0, entry));
+                j.len = 5;
+                ins.push(j);
+                let shared: Vec<(usize, usize)> = (entry..nb).map(|b| (0, b)).collect();
+                funcs.push(FuncG { name: format!("user_{}", u), blocks: vec![BlockG { ins, suffix: None }], shared, cconv: Some("__stdcall"), no_blocks: false });
+            }
         }
         _ => {
             let ins = vec![g.mov_r32i("RAX", 0)];
